@@ -93,7 +93,13 @@ func (s *Server) cmdCLIENT(msg *Message, client *Client) (resp.Value, error) {
 					kv = strings.TrimSpace(kv)
 					if split := strings.SplitN(kv, "=", 2); len(split) == 2 {
 						hasFields = true
-						m[split[0]] = tryParseType(split[1])
+						switch split[0] {
+						case "name", "addr":
+							// text, also when it reads like a number
+							m[split[0]] = split[1]
+						default:
+							m[split[0]] = tryParseType(split[1])
+						}
 					}
 				}
 				if hasFields {
